@@ -167,7 +167,9 @@ def unblockPrompt (recs : List HRec) (times : List Nat) : Bool :=
     let released := (recs.filter (fun r => r.res == "none" && r.fin == some t)).length
     decide (k ≤ released) || stillBlocked == 0)
 
-def run (kv : KV) : String :=
+/-- `extra`: a further agreement verdict computed elsewhere (whole-server replay), with tags and a
+    description of what went wrong. -/
+def runWith (kv : KV) (extra : Bool × List String × String) : String :=
   let anon := get kv "anon" == "1"
   let labelStrs := if anon then numberPushes (listS ',' (get kv "labels")) 0 else listS ',' (get kv "labels")
   let labels := labelStrs.filterMap labelOf
@@ -237,9 +239,13 @@ def run (kv : KV) : String :=
       | none => if !aHist then "history"
         else if !aLeft then "left:model=" ++ ",".intercalate (s.queue.map itemStr)
         else if !aBlocked then "blocked" else "-"
-  "res id=" ++ get kv "id" ++ " agree=" ++ b01 (aHist && aLeft && aBlocked) ++ " skip=0"
-    ++ " aC07=" ++ b01 (aHist && aLeft && aBlocked) ++ " aC17=" ++ b01 (aHist && aLeft && aBlocked)
+  let all := aHist && aLeft && aBlocked && extra.1
+  let diff := if diff == "-" && !extra.1 then extra.2.2 else diff
+  "res id=" ++ get kv "id" ++ " agree=" ++ b01 all ++ " skip=0"
+    ++ " aC07=" ++ b01 all ++ " aC17=" ++ b01 all
     ++ " C07=" ++ b01 c07 ++ " C17=" ++ b01 c17
-    ++ " tags=" ++ ",".intercalate tags ++ " diff=" ++ diff
+    ++ " tags=" ++ ",".intercalate (tags ++ extra.2.1) ++ " diff=" ++ diff
+
+def run (kv : KV) : String := runWith kv (true, [], "-")
 
 end TH.QueueCase
